@@ -285,13 +285,13 @@ SUBCHECKS = [
                   "path = general formula, = harness reference, additive, marginal mass = quadrature of the marginal "
                   "density, sub-margin = I-margin, inverse tail integral round trips, fresh-model equality; "
                   "non-trivial = straddling or infinite coordinate, d=3, or proper index subset",
-             strategy=strat_case, budget={"quick": 800, "thorough": 12000}, shards={"quick": 16, "thorough": 16},
+             strategy=strat_case, budget={"quick": 2400, "thorough": 12000}, shards={"quick": 16, "thorough": 16},
              essential_labels=("straddle", "pos-inf", "d=3")),
     SubCheck("end-points-at-zero", body_zero, classify_zero,
              rule="as above, but one coordinate interval is (a,0] (negative side), (0,b] (positive side) or a straddling "
                   "interval split at exactly zero; the other coordinates stay away from zero: mass finite and >= 0, = "
                   "harness reference with one-sided limits of the tail integrals, fast path = general formula, the two "
                   "pieces add up to the straddling rectangle",
-             strategy=strat_zero, budget={"quick": 320, "thorough": 4000}, shards={"quick": 16, "thorough": 16},
+             strategy=strat_zero, budget={"quick": 960, "thorough": 4000}, shards={"quick": 16, "thorough": 16},
              essential_labels=("neg0", "pos0", "split0")),
 ]
